@@ -207,6 +207,9 @@ HllArray<A>* HllArray<A>::newHll(std::istream& is, const A& allocator) {
     uint8_t auxLgIntArrSize = listHeader[4];
     AuxHashMap<A>* auxHashMap = AuxHashMap<A>::deserialize(is, lgK, auxCount, auxLgIntArrSize, comapctFlag, allocator);
     ((Hll4Array<A>*)sketch)->putAuxHashMap(auxHashMap);
+  } else if (tgtHllType == HLL_4 && !comapctFlag) {
+    // an updatable HLL_4 image reserves an empty aux array even without exceptions: consume it with the image
+    is.ignore(4 << hll_constants::LG_AUX_ARR_INTS[lgK]);
   }
 
   if (!is.good())
